@@ -37,6 +37,8 @@ class Tab:
         self.info: list = []      # ("sum", copy, rows) | ("fn", ins, outs, reqs) | ("atom", copy)
         self.polys = fw.Interner()
         self.reqs = fw.Interner()
+        self.params = fw.Interner()      # parameter lists of polymorphic signatures; id 0 = no parameters
+        self.params("[]")
 
     def _add(self, key, info):
         if key not in self.ids:
@@ -97,6 +99,17 @@ class Tab:
         return self.polys((json.dumps(self.norm_json(sig["params"]), sort_keys=True),
                            self.ty({"t": "G", **body})))
 
+    def params_id(self, params) -> int:
+        return self.params(json.dumps(self.norm_json(params), sort_keys=True))
+
+    def sigs(self):
+        """the table of interned polymorphic signatures: [(parameter-list id, body inputs, body outputs)] by signature id"""
+        out = []
+        for pj, fid in self.polys.rev:
+            inf = self.info[fid]
+            out.append((self.params(pj), list(inf[1]), list(inf[2])))
+        return out
+
     def recompute_copy(self):
         for i, inf in enumerate(self.info):
             if inf[0] == "sum":
@@ -106,16 +119,18 @@ class Tab:
 # ----------------------------------------------------------------------------- document -> literal structure
 
 
-def conv_val(v, tab: Tab, subs: list):
+def conv_val(v, tab: Tab, subs: list, on_function=None):
     k = v["v"]
     if k == "Sum":
         typ = v["typ"] if "t" in v["typ"] else {"t": "Sum", **v["typ"]}
-        return ("VSum", tab.ty(typ), v["tag"], [conv_val(x, tab, subs) for x in v["vs"]])
+        return ("VSum", tab.ty(typ), v["tag"], [conv_val(x, tab, subs, on_function) for x in v["vs"]])
     if k == "Tuple":
-        vs = [conv_val(x, tab, subs) for x in v["vs"]]
+        vs = [conv_val(x, tab, subs, on_function) for x in v["vs"]]
         return ("VTuple", tab.sum_of([[x[1] for x in vs]]), vs)
     if k == "Extension":
         return ("VExt", tab.ty(v["typ"]))
+    if k == "Function" and on_function is not None:
+        return on_function(v["hugr"])
     if k == "Function":
         doc = v["hugr"]
         if isinstance(doc, str):
@@ -434,6 +449,232 @@ def conv_prog2(p, tab: Tab):
         cs = conv_cases2(p["cases"], p.get("order", range(len(p["cases"]))), tab, True)
         return gapp("QCond", grows(rows), grow(others), gN(sid_), cs)
     raise OutOfModel("root " + root)
+
+
+# ----------------------------------------------------------------------------- program -> Coq literal (model/Builder3.v)
+
+
+def gsigs(tab: Tab):
+    return glist("{| si_params := %s; si_ins := %s; si_outs := %s |}" % (gN(p), grow(i), grow(o)) for p, i, o in tab.sigs())
+
+
+def gorow(r):
+    return gopt(None if r is None else grow(r))
+
+
+class Conv3:
+    """program (harness/progs.py format) -> prog3 literal; function names are interned per program; `funcs` maps a function
+    name to its (ins, outs) type specs as the program text gives them (needed for the type of load_function)"""
+
+    def __init__(self, tab: Tab, top=True):
+        self.tab = tab
+        self.names = fw.Interner()
+        self.funcs = {}
+        self.subs = []            # prog3 literals of the function constants, in document order
+        self.top = top
+
+    def row(self, ts):
+        return [self.tab.ty(ser_ty(t)) for t in ts]
+
+    def poly_parts(self, params, ins, outs):
+        """(parameter-list id, interned signature id) of PolyFuncType(params, FunctionType(ins, outs))"""
+        from hugr import tys
+        sig = tys.PolyFuncType([progs.mk_param(x) for x in (params or [])],
+                               tys.FunctionType([progs.mk_ty(t) for t in ins], [progs.mk_ty(t) for t in outs]))
+        d = json.loads(sig._to_serial().model_dump_json())
+        return self.tab.params_id(d["params"]), self.tab.poly(d)
+
+    def value(self, vspec):
+        """a value spec of the program -> value literal.  Plain data goes through the library's serialisation (conv_val);
+        a function constant ["fn", prog] becomes VFun(type of Dfg(ins) -> outs, k) with k the position of its sub-program in
+        `self.subs` (document order = program order: conv_val visits the members of sums / tuples in order)"""
+        fns = list(fn_specs(vspec))
+        v = json.loads(progs.mk_val(vspec)._to_serial_root().model_dump_json())
+        it = iter(fns)
+
+        def on_function(_doc):
+            sub = next(it)
+            ty = self.tab.ty(ser_ty(["fn", list(sub["ins"]), list(sub["body"]["out_tys"])]))
+            self.subs.append(Conv3(self.tab, top=False).prog(sub))
+            return ("VFun", ty, len(self.subs) - 1)
+        cv = conv_val(v, self.tab, None, on_function=on_function)
+        if next(it, None) is not None:
+            raise OutOfModel("function constant inside an extension value")
+        return gval(cv)
+
+    def inst(self, st):
+        if st.get("inst") is None:
+            return "None"
+        _, ins, outs = st["inst"]
+        return "(Some (%s, %s))" % (grow(self.row(ins)), grow(self.row(outs)))
+
+    def region(self, r, noconst):
+        return gapp("Rg", gwids(r["ins"]), self.stmts(r["stmts"], noconst), gwids(r["outs"]))
+
+    def stmts(self, sts, noconst):
+        out = "UNil"
+        for st in reversed([self.stmt(st, noconst) for st in sts]):
+            out = gapp("UCons", st, out)
+        return out
+
+    def cases(self, cases, order, noconst):
+        out = "KNil"
+        for i, c in reversed([(i, self.region(cases[i], noconst)) for i in list(order)]):
+            out = gapp("KCons", gN(i), c, out)
+        return out
+
+    def cfg_parts(self, c, noconst):
+        """(blocks3 literal, branches literal) of a cfg statement / root; blocks are converted in program order"""
+        bls = []
+        for bl in c["blocks"]:
+            if bl["kind"] == "entry":
+                k = "BEntry"
+            elif bl["kind"] == "succ":
+                k = gapp("BSucc", gN(bl["pred"]))
+            else:
+                k = gapp("BBlock", grow(self.row(bl["in_tys"])))
+            bls.append((bl["id"], k, self.region(bl["body"], noconst), bool(bl.get("single")), bl["branch_wires"]))
+        out = "BNil"
+        for bid, k, body, single, bw in reversed(bls):
+            out = gapp("BCons", gN(bid), k, body, gbool(single), gwids(bw), out)
+        brs = []
+        for src, dst in c["branches"]:
+            tgt = "BExit" if dst in ("exit", "exit_via_branch") else gapp("BTo", gN(dst))
+            brs.append("(%s, %s)" % (gN(src), tgt))
+        return out, glist(brs)
+
+    def stmt(self, st, noconst):
+        """noconst: the Hugr the statement is executed on is rooted in a Conditional or a CFG (the interpreter then puts a
+        constant asked for at the root into the current container instead)"""
+        tab = self.tab
+        k = st["k"]
+        outs = gwids(st.get("outs", []))
+        if k == "op":
+            if st["op"][0] == "callind":
+                return gapp("UCallInd", gN(st["id"]), gwids(st["args"]), outs)
+            return gapp("UOp", gN(st["id"]), conv_opspec(st["op"], tab), gwids(st["args"]), outs)
+        if k == "load":
+            if not self.top and any(True for _ in fn_specs(st["val"])):
+                raise OutOfModel("function constant inside a function constant")
+            cp = "CRoot" if st.get("const_parent", "here") == "root" and not noconst else "CHere"
+            (w,) = st["outs"]
+            return gapp("ULoad", gN(st["id"]), self.value(st["val"]), cp, gN(w))
+        if k == "loadc":
+            (w,) = st["outs"]
+            return gapp("ULoadC", gN(st["id"]), gN(st["const"]), gN(w))
+        if k == "nested":
+            if st.get("insert"):
+                sub = gapp("RDfg", grow(self.row(st["in_tys"])), self.region(st["body"], False))
+                return gapp("UInsert", gN(st["id"]), sub, gwids(st["args"]), outs)
+            return gapp("UNested", gN(st["id"]), gwids(st["args"]), self.region(st["body"], noconst), outs)
+        if k == "order":
+            return gapp("UOrder", gref(st["src"]), gref(st["dst"]))
+        if k == "loop":
+            if st.get("insert"):
+                sub = gapp("RLoop", grow(self.row(st["just_tys"])), grow(self.row(st["rest_tys"])), self.region(st["body"], False))
+                return gapp("UInsert", gN(st["id"]), sub, gwids(st["just"] + st["rest"]), outs)
+            return gapp("ULoop", gN(st["id"]), gwids(st["just"]), gwids(st["rest"]), self.region(st["body"], noconst), outs)
+        if k == "cond":
+            style = st.get("style", "cases")
+            cases = st["cases"]
+            if style == "insert":
+                rows, sid_ = sum_rows_ids(st["sum_ty"], tab)
+                sub = gapp("RCond", grows(rows), grow(self.row(st["other_tys"])), gN(sid_),
+                           self.cases(cases, st.get("order", range(len(cases))), True))
+                return gapp("UInsert", gN(st["id"]), sub, gwids([st["cond"]] + st["args"]), outs)
+            order = [1, 0] if style == "ifelse" else st.get("order", range(len(cases)))
+            return gapp("UCond", gN(st["id"]), gN(st["cond"]), gwids(st["args"]), self.cases(cases, order, noconst), outs)
+        if k == "cfg":
+            if st.get("insert"):
+                bls, brs = self.cfg_parts(st, True)
+                sub = gapp("RCfg", grow(self.row(st["in_tys"])), bls, brs)
+                return gapp("UInsert", gN(st["id"]), sub, gwids(st["args"]), outs)
+            bls, brs = self.cfg_parts(st, noconst)
+            return gapp("UCfg", gN(st["id"]), gwids(st["args"]), bls, brs, outs)
+        if k == "call":
+            return gapp("UCall", gN(st["id"]), gN(self.names(st["func"])), gwids(st["args"]), outs, self.inst(st))
+        if k == "loadfn":
+            if st.get("inst") is not None:
+                _, ins, ous = st["inst"]
+            else:
+                if st["func"] not in self.funcs:
+                    raise OutOfModel("load_function of an unknown function")
+                ins, ous = self.funcs[st["func"]]
+            fnty = tab.ty(ser_ty(["fn", list(ins), list(ous)]))
+            (w,) = st["outs"]
+            return gapp("ULoadFn", gN(st["id"]), gN(self.names(st["func"])), gN(w), self.inst(st), gN(fnty))
+        if k == "localfn":
+            body = self.region(st["body"], noconst)
+            douts = self.row(st["body"]["out_tys"]) if st.get("declare") else None
+            self.poly_parts([], st["ins"], st["body"]["out_tys"])          # the signature is in the table
+            self.funcs[st["name"]] = (st["ins"], st["body"]["out_tys"])
+            return gapp("ULocalFn", gN(st["id"]), gN(self.names(st["name"])), gN(0), grow(self.row(st["ins"])), gorow(douts), body)
+        raise OutOfModel(k)
+
+    def prog(self, p):
+        tab = self.tab
+        root = p["root"]
+        if root == "dfg":
+            return gapp("RDfg", grow(self.row(p["ins"])), self.region(p["body"], False))
+        if root == "loop":
+            return gapp("RLoop", grow(self.row(p["just_tys"])), grow(self.row(p["rest_tys"])), self.region(p["body"], False))
+        if root == "cond":
+            rows, sid_ = sum_rows_ids(p["sum_ty"], tab)
+            return gapp("RCond", grows(rows), grow(self.row(p["other_tys"])), gN(sid_),
+                        self.cases(p["cases"], p.get("order", range(len(p["cases"]))), True))
+        if root == "func":
+            douts = self.row(p["body"]["out_tys"]) if p.get("declare") else None
+            self.poly_parts([], p["ins"], p["body"]["out_tys"])
+            return gapp("RFunc", gN(0), grow(self.row(p["ins"])), gorow(douts), self.region(p["body"], False))
+        if root == "cfg":
+            bls, brs = self.cfg_parts(p, True)
+            return gapp("RCfg", grow(self.row(p["in_tys"])), bls, brs)
+        if root == "module":
+            consts = [self.value(v) for v in p.get("consts", [])]
+            for f in p["funcs"]:
+                self.funcs[f["name"]] = (f["ins"], f["outs"])
+            fs = []
+            for f in p["funcs"]:
+                fid = gN(self.names(f["name"]))
+                if f.get("decl"):
+                    _, sg = self.poly_parts(f.get("params"), f["ins"], f["outs"])
+                    fs.append(("FDecl", fid, gN(sg)))
+                else:
+                    pid, _ = self.poly_parts(f.get("params"), f["ins"], f["outs"])
+                    douts = self.row(f["outs"]) if f.get("declare") else None
+                    fs.append(("FDefn", fid, gN(pid), grow(self.row(f["ins"])), gorow(douts), self.region(f["body"], False)))
+            out = "FNil"
+            for f in reversed(fs):
+                out = gapp(*f, out)
+            return gapp("RModule", glist(consts), out)
+        raise OutOfModel("root " + root)
+
+
+def fn_specs(v):
+    """the sub-programs of the function constants inside a value spec, in the order conv_val meets them"""
+    k = v[0]
+    if k == "fn":
+        yield v[1]
+    elif k in ("tuple", "some", "left"):
+        for x in v[1]:
+            yield from fn_specs(x)
+    elif k == "right":
+        for x in v[2]:
+            yield from fn_specs(x)
+    elif k == "sum":
+        for x in v[3]:
+            yield from fn_specs(x)
+    elif k in ("arr", "list", "sarr"):
+        for x in v[1]:
+            yield from fn_specs(x)
+
+
+def conv_prog3(p, tab: Tab):
+    """(the Coq `prog3` literal of a program, the literal of the list of its function constants' sub-programs), or
+    OutOfModel"""
+    c = Conv3(tab)
+    pl = c.prog(p)
+    return pl, glist(c.subs)
 
 
 # ----------------------------------------------------------------------------- the design-time transcription (cross-check)
@@ -986,6 +1227,14 @@ class C01(fw.Prop):
                 obs.pop("out_of_model", None)
             except OutOfModel as e:
                 obs["out_of_model2"] = str(e)
+        if lit is None and obs["prog"]["root"] in ("dfg", "loop", "cond", "func", "module", "cfg"):
+            # the third builder model (model/Builder3.v): functions, modules, control-flow graphs
+            try:
+                pl3, subs3 = conv_prog3(obs["prog"], c["tab"])  # may intern further types / signatures: before the tables are printed
+                lit = gapp("CProg3", gsigs(c["tab"]), pl3, subs3, gvhugr(c), gbool(obs["same"]), gbool(obs["fake"]))
+                obs["in_model3"] = True
+            except OutOfModel as e:
+                obs["out_of_model3"] = str(e)
         if lit is None:
             lit = gapp("CDoc", gvhugr(c), gbool(obs["same"]), gbool(obs["fake"]))
         ctx.__dict__.setdefault("c01_fake", []).append((case, obs["fake"], obs["fake_msg"], lit if not obs["fake"] else None))
@@ -1084,6 +1333,20 @@ class C01(fw.Prop):
                     bg[0] += 1
             if o.get("out_of_model2"):
                 d["out_of_extended_model"][o["out_of_model2"]] = d["out_of_extended_model"].get(o["out_of_model2"], 0) + 1
+            # the third model (model/Builder3.v): functions, modules, control-flow graphs; a program inside the first or
+            # the second model is inside the third by conservativity (C01_builder3_conservative)
+            in3 = bool(o.get("in_model") or o.get("in_model2") or o.get("in_model3"))
+            b3 = d.setdefault("inside_model3_by_root", {}).setdefault(p["root"], [0, 0])       # [inside, generated]
+            b3[1] += 1
+            b3[0] += in3
+            d["inside_model3"] = d.get("inside_model3", 0) + in3
+            if gen:
+                g3 = d.setdefault("inside_model3_general_stream_by_root", {}).setdefault(p["root"], [0, 0])
+                g3[1] += 1
+                g3[0] += in3
+            if o.get("out_of_model3"):
+                d.setdefault("out_of_model3", {})
+                d["out_of_model3"][o["out_of_model3"]] = d["out_of_model3"].get(o["out_of_model3"], 0) + 1
             for k, v in progs.kinds_of(p).items():
                 d["stmt_kinds"][k] = d["stmt_kinds"].get(k, 0) + v
         ns = sorted(d["nodes"])
